@@ -786,6 +786,18 @@ func (ev *Evaluator) evalD(v ssa.Value, env Env, fr *Frame, d int) (constant.Val
 			return nil, false
 		}
 		return constant.MakeInt64(int64(str[idx])), true
+	case *ssa.Index:
+		s, ok1 := ev.evalD(x.X, env, fr, d+1)
+		i, ok2 := ev.evalD(x.Index, env, fr, d+1)
+		if !ok1 || !ok2 || s.Kind() != constant.String || i.Kind() != constant.Int {
+			return nil, false
+		}
+		str := constant.StringVal(s)
+		idx, exact := constant.Int64Val(i)
+		if !exact || idx < 0 || int(idx) >= len(str) {
+			return nil, false
+		}
+		return constant.MakeInt64(int64(str[idx])), true
 	case *ssa.Call:
 		if b, ok := x.Call.Value.(*ssa.Builtin); ok && b.Name() == "len" && len(x.Call.Args) == 1 {
 			if s, ok := ev.evalD(x.Call.Args[0], env, fr, d+1); ok && s.Kind() == constant.String {
